@@ -72,7 +72,21 @@ class C05(Prop):
                   "force or a planted Tucker obstruction), not proved")
     level_note = ("Lean kernel + standard axioms; the 800-line PQ-tree port is modelled by its contract only (tested, "
                   "not proved); hand-written model of the glue and reductions")
-    theorems = []
+    theorems = [
+        "PrefVerif.C05.contiguous_iff",
+        "PrefVerif.C05.mem_perms",
+        "PrefVerif.C05.c1pWitness_iff",
+        "PrefVerif.C05.bruteC1P_iff",
+        "PrefVerif.C05.solveC1_correct",
+        "PrefVerif.C05.candidateInterval_correct",
+        "PrefVerif.C05.candidateExtremalInterval_correct",
+        "PrefVerif.C05.voterInterval_correct",
+        "PrefVerif.C05.voterExtremalInterval_correct",
+        "PrefVerif.C05.weaklySingleCrossing_correct",
+        "PrefVerif.C05.dichotomousEuclidean_correct",
+        "PrefVerif.C05.part_correct",
+        "PrefVerif.C05.part2_correct",
+    ]
     rule = ("random approval profiles (<= 6 alternatives, <= 6 ballots incl. empty, full and repeated ballots, "
             "unapproved alternatives) against brute force; partition profiles with one / two / more parts; 0/1 "
             "matrices <= 7x7 against brute force; planted C1P matrices up to 40x40 and Tucker obstructions M_I(k), "
